@@ -166,6 +166,7 @@ def _intervention(i):
         kw = dict(product=prod, prob=i.get('prob', 0.5))
         if 'start_year' in i: kw['start_year'] = i['start_year']
         if 'end_year' in i: kw['end_year'] = i['end_year']
+        if 'name' in i: kw['name'] = i['name']
         return ss.routine_vx(**kw)
     raise ValueError(t)
 
